@@ -46,3 +46,6 @@ PROPERTIES = {
         ],
     },
 }
+
+# Per-property text for MANIFEST.json (level text, trusted-base note, technique).
+MANIFEST_TEXT = {}
